@@ -43,6 +43,16 @@ CLAIMED = {
         "CLI rejection of contradictory selections."),
   technique="Lean 4 proof (induction over traversal; decide +kernel over generated tables) + differential correspondence",
   design="DESIGN.md section 7 C05"),
+ "C12": dict(
+  text=("Lean theorems (lean/Props/C12.lean): count_exact (for ANY weights, finding lists, criterion and rank: score // weight = number of findings of that rank, given a "
+        "positive weight) with NEG_zero_weight showing why positivity is an obligation and gen_weights_positive discharging it for the RANKING_VALUES regenerated from /repo; "
+        "total_counts_exact / totals_are_sums (totals = sums over files); loc_rule — for EVERY byte string the line-of-code predicate of count_locs (strip, BOM, '#') equals the "
+        "specification 'first non-blank byte after an optional BOM exists and is not #' (proved through lemmas about bytes.strip); loc_count; counters_exact. The BOM defect of the "
+        "pinned commit was repaired in /repo (fix: commit be90e48) and the model follows the repaired code. Correspondence: seeded multi-finding programs with bare/test-specific nosec "
+        "comments x 10 byte-level variants (CRLF, lone CR, BOM, BOM+comment, cookies, latin-1, blank/whitespace/form-feed lines, no final newline) — every metrics key per file and "
+        "_totals of real bandit against the spec oracle and against the compiled Lean model."),
+  technique="Lean 4 proof (arithmetic + list/bytes lemmas) + differential correspondence",
+  design="DESIGN.md section 7 C12"),
 }
 
 REASON_PENDING = "check not built yet (work in progress; DESIGN.md section 11 gives the build order)"
